@@ -200,6 +200,78 @@ def check_skip_rules(ctx, rule="skip-rules"):
     ctx.floor(rule, "skip patterns", n, 1)
 
 
+def check_depth_discipline(ctx, rule="comment-depth"):
+    """the block-comment depth is a function of the CommentOpen / CommentClose TOKENS only"""
+    from .. import armlib as A
+    ctx.rule(rule, "in both lexers' next(), `comment_depth` is written only as `+= 1` in the arm of a CommentOpen token, `-= 1` in the arm "
+                   "of a CommentClose token, and `= 0` in the end-of-input arm: the depth never changes in the middle of another "
+                   "token's text (a line-comment or string token that contains `-/`), because the rest of that token would then be "
+                   "outside every comment and yet never reach the grammar")
+    facts = ctx.facts
+    n = 0
+    for fn, label in ((LEXER_NEXT, "Lexer"), (TOKENS_NEXT, "LexicalTokens")):
+        h = ctx.need_hir(rule, fn)
+        if h is None:
+            continue
+        loc = facts.bodies()[fn]["loc"]
+        par = {}
+        stack = [h["body"]]
+        while stack:
+            p = stack.pop()
+            for c in H.children(p):
+                if isinstance(c, dict):
+                    par[id(c)] = p
+                    stack.append(c)
+
+        def arm_of(x):
+            """pattern shapes of the match arms enclosing x (innermost first)"""
+            out = []
+            cur = x
+            while id(cur) in par:
+                p = par[id(cur)]
+                if H.kind(p) == "Match" and not p.get("src"):
+                    for a in p["arms"]:
+                        if a is cur or a["body"] is cur or a.get("guard") is cur:
+                            out.append(A.pat_shape(a["pat"]))
+                if H.kind(p) == "If" and (p.get("t") is cur):
+                    c = " ".join(A.pat_shape(a["pat"]) for m in H.walk(p["c"]) if H.kind(m) == "Match" for a in m["arms"]) + A.sexpr(p["c"], None)
+                    if "CommentOpen" in c:
+                        out.append("if-CommentOpen")
+                cur = p
+            return out
+        for x in H.walk(h["body"]):
+            if H.kind(x) not in ("Assign", "AssignOp"):
+                continue
+            l = H.peel(x["l"])
+            if not (H.kind(l) == "Field" and l.get("name") == "comment_depth"):
+                continue
+            n += 1
+            arms = " ".join(arm_of(x))
+            rhs = A.sexpr(x["r"], None)
+            if H.kind(x) == "AssignOp":
+                op = (x.get("op") or "").replace("Assign", "")
+                ok = (op == "Add" and rhs == "1" and "CommentOpen" in arms) or (op == "Sub" and rhs == "1" and "CommentClose" in arms)
+                what = "%s= %s" % ({"Add": "+", "Sub": "-"}.get(op, op), rhs)
+            else:
+                ok = (rhs == "0" and "None" in arms) or (rhs == "1" and "if-CommentOpen" in arms)  # the first opener: 0 -> 1
+                what = "= %s" % rhs[:80]
+            ctx.check(ok, rule, "%s:write:%s" % (label, what if ok else "other"),
+                      "%s::next writes `comment_depth %s` in the arm(s) [%s]: the depth must change only by one per CommentOpen / "
+                      "CommentClose token (or be reset at end of input); a change computed from the text of another token leaves the "
+                      "rest of that token unlexed" % (label, what, arms[:120]), [loc[0], x.get("ln")], detail={"write": what, "arm": arms[:80]})
+    ctx.floor(rule, "writes of comment_depth", n, 4)
+    # and nobody else writes it
+    for fn, bd in sorted(facts.bodies().items()):
+        if fn in (LEXER_NEXT, TOKENS_NEXT) or "zydeco_surface::textual::lexer" not in fn or "{closure" in fn:
+            continue
+        h = facts.hir(fn)
+        if not h:
+            continue
+        for x in H.walk(h["body"]):
+            if H.kind(x) in ("Assign", "AssignOp") and H.kind(H.peel(x["l"])) == "Field" and H.peel(x["l"]).get("name") == "comment_depth":
+                ctx.violation(rule, "%s:writes-depth" % fn.split("::")[-1], "%s writes comment_depth outside next()" % fn, [bd["loc"][0], x.get("ln")])
+
+
 def run(ctx):
     ctx.rule("stream-end", "the token stream ends (next() = None) only on the None edge of the underlying "
                            "lexer's next(): MIR reachability from each inner.next() call with its None edge cut")
@@ -211,6 +283,7 @@ def run(ctx):
     check_front_doors(ctx)
     check_eof_in_comment(ctx)
     check_skip_rules(ctx)
+    check_depth_discipline(ctx)
     ctx.assume("LALRPOP-generated parsers accept only when the start symbol is followed by end of the token stream")
     ctx.assume("logos yields every byte of the input that no skip pattern matches either as a token or as an Err item")
     return {}
